@@ -27,7 +27,7 @@ def fields : List Field := [
   ⟨"Gloc.numAttrs (u16): >= kMaxGlyphAttrs attributes is an error", kMaxGlyphAttrs, 16⟩,
   ⟨"Glat v1 attribute id (u8): >= kMaxGlyphAttrsGlat1 attributes switches to Glat v2", kMaxGlyphAttrsGlat1, 8⟩,
   ⟨"Silf.numPseudo (u16): >= kMaxPseudos pseudo-glyphs is an error", kMaxPseudos, 16⟩,
-  ⟨"Silf.numScriptTag (u8): more than kMaxScriptTags tags is an error", kMaxScriptTags + 1, 16⟩,
+  ⟨"Silf.numScriptTag (u8): more than kMaxScriptTags tags is an error", kMaxScriptTags + 1, 8⟩,
   ⟨"glyph id (u16): fonts above kMaxGlyphsPerFont glyphs are rejected", kMaxGlyphsPerFont + 1, 16⟩,
   ⟨"glyph attribute value (i16): |value| >= kMaxGlyphAttrValue is an error", kMaxGlyphAttrValue, 15⟩
 ]
